@@ -15,17 +15,23 @@ import (
 	"verifharness/hx"
 )
 
-const Rule = "cases = (tree kind, comparator, history) drawn from VERIF_SEED: keys inserted in sorted, reverse-sorted, " +
+const Rule = "cases = (tree kind, constructor arguments of each table: comparator (8 lawful orders, normalised or not) and value " +
+	"equality, history) drawn from VERIF_SEED: keys inserted in sorted, reverse-sorted, " +
 	"zig-zag or random order (4-300 keys quick, up to 10^4 thorough), then a churn phase of Delete (present and absent " +
 	"keys), DeleteMin, DeleteMax, re-insertions and now and then SelectMatch/PartitionMatch (the history goes on with the " +
 	"derived table); a third of the small cases then empty the table (DeleteAll or draining), call the three deletes and " +
 	"Height on the empty table and refill it; Traverse in all eight orders and an invalid one, with and without a stopping " +
-	"visitor; plus mixed histories of package c01's generator (every query, two tables) with a check after every mutator; " +
+	"visitor; plus mixed histories of package c01's generator (every query, two or three tables with their own comparators, " +
+	"key universes of 4-16 and of 16-64 keys) with a check after every mutator; plus the threshold sweep of package c01 " +
+	"(0,1,2,63,64,65,255,256,257,1023,1024,1025 and 65536 keys - thorough: also 65535,65537,70000 - inserted in sorted, reverse, " +
+	"zig-zag or random order, queries at the threshold ranks, growth past and shrinking below the size with all kinds of " +
+	"delete) with a check after the load and after every delete; " +
 	"after every mutator (small tables) or periodically (large ones) a " +
 	"`height` call, at which the harness rebuilds the shape from the pre-order and in-order traversals and checks " +
 	"Height() = longest root-to-leaf path, AVL: every node's subtree heights differ by <= 1 and cached = real heights, " +
 	"Red-Black: black root, no red right link, no two reds in a row, equal black height on every path, " +
-	"2^height <= (n+1)^2; `dump` lines compare heights/colours/sizes with the Lean Model; " +
+	"2^height <= (n+1)^2; `dump` lines compare heights/colours/sizes with the Lean Model; every case runs on the Lean " +
+	"Model as well (oracle_only_cases = 0); " +
 	"non-trivial = at least one such check ran on a table holding >= 4 keys; distinct = distinct (header, op list)"
 
 func keysOf(l []c01.KV) []int {
@@ -161,46 +167,13 @@ func Exec(c hx.Case) hx.Result {
 	return res
 }
 
-// insertion orders
-func order(r *hx.Rand, family string, n int) []int {
-	ks := make([]int, n)
-	switch family {
-	case "sorted":
-		for i := range ks {
-			ks[i] = i
-		}
-	case "reverse":
-		for i := range ks {
-			ks[i] = n - 1 - i
-		}
-	case "zigzag":
-		lo, hi := 0, n-1
-		for i := range ks {
-			if i%2 == 0 {
-				ks[i] = lo
-				lo++
-			} else {
-				ks[i] = hi
-				hi--
-			}
-		}
-	default:
-		for i := range ks {
-			ks[i] = i
-		}
-		for i := n - 1; i > 0; i-- {
-			j := r.Intn(i + 1)
-			ks[i], ks[j] = ks[j], ks[i]
-		}
-	}
-	return ks
-}
+func order(r *hx.Rand, family string, n int) []int { return c01.InsertionOrder(r, family, n) }
 
 var orderNames = []string{"vlr", "vrl", "lvr", "rvl", "lrv", "rlv", "ascending", "descending", "other"}
 
 var derivePreds = []string{"true", "kmod 2 0", "kmod 3 1", "vmod 2 1", "klt 7", "sumlt 12"}
 
-var Families = []string{"sorted", "reverse", "zigzag", "random"}
+var Families = c01.Families
 
 // GenHistory: fill in the given order, then churn; `height` (and `dump`) every `every` mutators.
 func GenHistory(r *hx.Rand, family string, n, churn, every int, small bool) []string {
@@ -267,6 +240,19 @@ func GenHistory(r *hx.Rand, family string, n, churn, every int, small bool) []st
 	return ops
 }
 
+// withHeights: a `height` check after every call that can change a table or bring another one to the front.
+func withHeights(in []string) []string {
+	var ops []string
+	for _, op := range in {
+		ops = append(ops, op)
+		switch strings.Fields(op)[0] {
+		case "put", "delete", "deletemin", "deletemax", "deleteall", "swap", "swapc", "selectmatch", "partitionmatch":
+			ops = append(ops, "height")
+		}
+	}
+	return ops
+}
+
 func permutations(n int, f func([]int)) {
 	p := make([]int, n)
 	for i := range p {
@@ -303,7 +289,6 @@ func Main(run *hx.Run) {
 		}
 		for k := 0; k < n; k++ {
 			family := Families[k%len(Families)]
-			cmp := hx.Pick(r, c01.CmpNames)
 			size := r.Range(4, 40)
 			every := 1
 			small := true
@@ -312,7 +297,7 @@ func Main(run *hx.Run) {
 				every = r.Range(5, 20)
 				small = false
 			}
-			c := hx.Case{Header: fmt.Sprintf("comp=%s cmp=%s family=%s", comp, cmp, family),
+			c := hx.Case{Header: fmt.Sprintf("comp=%s %s family=%s", comp, c01.Params(r, c01.CmpNames), family),
 				Ops: GenHistory(r, family, size, size*2, every, small)}
 			run.Do(comp, c, Exec)
 		}
@@ -323,17 +308,21 @@ func Main(run *hx.Run) {
 		r := run.R.Fork(comp + "/mixed")
 		n := run.Scale(45)
 		for k := 0; k < n; k++ {
-			var ops []string
-			for _, op := range c01.GenOps(r, 50, r.Range(4, 16)) {
-				ops = append(ops, op)
-				switch strings.Fields(op)[0] {
-				case "put", "delete", "deletemin", "deletemax", "deleteall", "swap", "selectmatch", "partitionmatch":
-					ops = append(ops, "height")
-				}
+			u, l, lo := r.Range(4, 16), 50, 0
+			if k%3 == 2 {
+				u, l = r.Range(16, 64), 150 // the shapes that need a dozen keys or more (a two-children delete below an unbalanced ancestor)
 			}
-			c := hx.Case{Header: fmt.Sprintf("comp=%s cmp=%s family=mixed dump=1", comp, hx.Pick(r, c01.CmpNames)), Ops: ops}
+			if k%4 == 3 {
+				lo = -u / 2
+			}
+			c := hx.Case{Header: fmt.Sprintf("comp=%s %s family=mixed dump=1", comp, c01.Params(r, c01.CmpNames)),
+				Ops: withHeights(c01.GenOpsAt(r, l, lo, u))}
 			run.Do(comp, c, Exec)
 		}
+	}
+	// size thresholds: the sweep of package c01 (it asks `height` after the load and after every mutation)
+	for _, comp := range []string{"avl", "rb", "bst"} {
+		c01.SweepCases(run, run.R.Fork(comp+"/sweep"), comp, func(c hx.Case) { run.Do(comp, c, Exec) })
 	}
 	if run.Thorough() {
 		// large tables: 10^3 - 10^4 keys in the adversarial insertion orders, long churn
